@@ -60,7 +60,7 @@ def learned_stream(rs, tier):
     from deeprob.spn.learning.xpc import learn_xpc, learn_expc
     from deeprob.spn.structure.leaf import Bernoulli
     out = []
-    nl = 36 if tier == "quick" else 300
+    nl = 36 if tier == "quick" else 600
     for cfg in c05.configs(rs, nl, tier):
         cfg = dict(cfg); cfg["adv"] = False
         cfg["rows"] = "kmeans" if cfg["rows"] == "adv" else cfg["rows"]; cfg["cols"] = "rdc" if cfg["cols"] == "adv" else cfg["cols"]
@@ -90,7 +90,7 @@ def learned_stream(rs, tier):
             classes, counts = np.unique(y, return_counts=True)
             return root, Xy.shape[1], [float(c) / len(y) for c in counts]
         out.append(("wrapper", cfg, f, False))
-    for i in range(16 if tier == "quick" else 120):
+    for i in range(16 if tier == "quick" else 300):
         cfg = dict(det=bool(i % 2), sd=bool((i // 2) % 2), conj_len=int(rs.choice([1, 2, 3])), arity=int(rs.choice([2, 3, 4])),
                    min_part_inst=int(rs.choice([5, 20, 60])), n=int(rs.choice([30, 120, 300])), d=int(rs.randint(3, 9)),
                    ensemble=bool(i % 4 == 3), seed=int(rs.randint(1000)), sd_level=int(i // 4 % 3))
